@@ -1,10 +1,115 @@
 import PhysisModel.Base.Proto
+import PhysisModel.Model.Tex
+import PhysisModel.Spec.Tex
+/-!
+C13 driver.  Case grammar (one line):
+
+  `tex <attribute> <format code> <width> <height> <depth> <mip levels> <64 bytes hex: 3 LOD + 13 surface offsets> <payload hex>`
+
+* input for the real code: `tex <hex of Spec.Tex.encode header payload>`
+* expected: the canonical specified decoding `Spec.Tex.expected .always4`
+* model: `Tex.fromExisting` on the encoded file
+* answers: `<width> <height> <depth> <2d|3d> <rgba hex>` | `none` | `panic`
+* tag `kf:bc3-colour-mode`: the texture is in the class `Spec.Bcn.Bc3ConventionsDiffer`
+  (then no `model` field: see `handle`)
+* tag `triv`: no pixels
+A case whose format code is not one of the four formats of the property, or whose payload is
+shorter than the texture needs, is outside the property's quantifier and is rejected (`bad-case`).
+`JUDGE\t<case>\t<answer>` evaluates the property predicate `Spec.Tex.DecodedOK` on `<answer>`.
+-/
 namespace Physis.Driver.C13
 open Physis Physis.Proto
 
+def hexFast (bs : Bytes) : String :=
+  if bs.isEmpty then "-" else
+  bs.foldl (fun s b => (s.push (Bytes.hexDigit (b.toNat / 16))).push (Bytes.hexDigit (b.toNat % 16))) ""
+
+def u32s : Bytes → List UInt32
+  | a :: b :: c :: d :: rest => Tex.u32le a b c d :: u32s rest
+  | _ => []
+
+structure Case where
+  header : Spec.Tex.Header
+  fmt : Spec.Bcn.Format
+  payload : Bytes
+
+def parseCase (fs : List String) : Option Case :=
+  match fs with
+  | ["tex", attr, code, w, h, d, mips, offs, payload] => do
+    let attr ← attr.toNat?
+    let code ← code.toNat?
+    let w ← w.toNat?
+    let h ← h.toNat?
+    let d ← d.toNat?
+    let mips ← mips.toNat?
+    let offs ← Bytes.ofHex offs
+    let payload ← Bytes.ofHexFast payload
+    if attr ≥ 2 ^ 32 ∨ code ≥ 2 ^ 32 ∨ w ≥ 65536 ∨ h ≥ 65536 ∨ d ≥ 65536 ∨ mips ≥ 65536 ∨ offs.length ≠ 64 then none
+    else
+      let os := u32s offs
+      let hd : Spec.Tex.Header :=
+        ⟨UInt32.ofNat attr, UInt32.ofNat code, UInt16.ofNat w, UInt16.ofNat h, UInt16.ofNat d,
+         UInt16.ofNat mips, os.take 3, os.drop 3⟩
+      let fmt ← Spec.Tex.formatOfCode hd.formatCode
+      if payload.length < Spec.Bcn.needed fmt w h d then none
+      else some ⟨hd, fmt, payload⟩
+  | _ => none
+
+def showDecoded (r : Spec.Tex.Decoded) : String :=
+  s!"{r.width} {r.height} {r.depth} {if r.threeD then "3d" else "2d"} {hexFast r.rgba}"
+
+def showModel (r : Except Bcn.Err (Option Tex.Texture)) : String :=
+  match r with
+  | .error _ => "panic"
+  | .ok none => "none"
+  | .ok (some t) =>
+    let ty := match t.textureType with
+      | .ThreeDimensional => "3d"
+      | .TwoDimensional => "2d"
+    s!"{t.width.toNat} {t.height.toNat} {t.depth.toNat} {ty} {hexFast t.rgba}"
+
+def parseDecoded (s : String) : Option Spec.Tex.Decoded :=
+  match fields s with
+  | [w, h, d, ty, rgba] => do
+    let w ← w.toNat?
+    let h ← h.toNat?
+    let d ← d.toNat?
+    let ty ← if ty == "3d" then some true else if ty == "2d" then some false else none
+    let rgba ← Bytes.ofHexFast rgba
+    some ⟨ty, w, h, d, rgba⟩
+  | _ => none
+
+def judge (caseLine ans : String) : String :=
+  match parseCase (fields caseLine) with
+  | none => "JUDGE\tbad-case"
+  | some c =>
+    match parseDecoded ans with
+    | none => "JUDGE\tfail"
+    | some r =>
+      if decide (Spec.Tex.DecodedOK .always4 c.fmt c.header c.payload r) then "JUDGE\tok" else "JUDGE\tfail"
+
 /-- one case line in, one answer line out (see `Base/Proto.lean`) -/
 def handle (line : String) : String :=
-  match fields line with
-  | _ => bad
+  match line.splitOn "\t" with
+  | ["JUDGE", c, a] => judge c a.trimAscii.toString
+  | _ =>
+  match parseCase (fields line) with
+  | none => bad
+  | some c =>
+    let file := Spec.Tex.encode c.header c.payload
+    let w := c.header.width.toNat
+    let h := c.header.height.toNat
+    let d := c.header.depth.toNat
+    let inClass := decide (Spec.Bcn.Bc3ConventionsDiffer c.fmt w h d c.payload.toArray)
+    let tags :=
+      (if w * h * d = 0 then ["triv"] else []) ++ (if inClass then ["kf:bc3-colour-mode"] else [])
+    match Spec.Tex.expected .always4 c.header c.payload with
+    | none => bad
+    | some e =>
+      -- inside the class of the open finding the implementation may show the recorded behaviour
+      -- (a known hit) or the specified one (no alarm): the model of the defective code is not
+      -- a second reference there, so it is not emitted
+      answer ("tex " ++ hexFast file) (showDecoded e) tags
+        (if inClass then none else some (showModel (Tex.fromExisting file)))
 
 end Physis.Driver.C13
